@@ -233,6 +233,8 @@ def run_real(inst, d, env=None, timeout=60, bufsize=None, driver=None):
     p = subprocess.Popen([drv, "wf.json"], cwd=d, env=e, stdout=subprocess.PIPE, stderr=subprocess.PIPE,
                          start_new_session=True)
     try:
+        if e.get("VERIF_SLOW_STDOUT"):      # do not drain the driver's stdout for a while (blocks its log writes)
+            time.sleep(float(e["VERIF_SLOW_STDOUT"]))
         out, err = p.communicate(timeout=timeout)
         rr.timeout = False
     except subprocess.TimeoutExpired:
@@ -283,7 +285,7 @@ def read_cmdlog(path):
         pass
     return rows
 
-SKIP_TOP = {"wf.json", "trace.ndjson", "cmdlog", "wf.log", "return_snapshot.json", "ctl", "in", "log"}
+SKIP_TOP = {"wf.json", "trace.ndjson", "cmdlog", "wf.log", "wf2.log", "return_snapshot.json", "ctl", "in", "log"}
 def snapshot(d):
     """files below d (except harness files): path -> dict(kind, size, sha, ino, mtime_ns, text)"""
     snap = {}
